@@ -129,10 +129,10 @@ func c17one(c *Ctx, grid []bgzf.Offset, cas c17case) {
 }
 
 func c17(c *Ctx) {
-	c.Rule = "offsets O={(0,0),(0,1),(1,0),(1,1),(2,0),(3,0)}; chunks = all Begin<=End pairs over O (21, incl. zero-length); all lists of length 0..4 (thorough 0..7) with non-decreasing Begin (every order among equal Begins), plus all lists of length 5..6 (thorough 8..10) over the 4-offset alphabet {(0,0),(0,1),(1,0),(2,0)}; strategies Identity, Adjacent, Squash, Compressor(n) for n in {0,1,2,65536}. Oracle on the grid of elementary intervals between consecutive offsets: output sorted by Begin; every covered input interval covered by the output; Adjacent: exactly the input's intervals and End_i < Begin_{i+1}; Squash: the single enclosing chunk; Compressor(n): no neighbours with End.File+n >= Begin.File; idempotence. Non-trivial: lists with >= 2 chunks."
+	c.Rule = "offsets O={(0,0),(0,1),(1,0),(1,1),(2,0),(3,0)}; chunks = all Begin<=End pairs over O (21, incl. zero-length); all lists of length 0..4 (thorough 0..7) with non-decreasing Begin (every order among equal Begins), plus all lists of length 5..6 (thorough 8..10) over the 4-offset alphabet {(0,0),(0,1),(1,0),(2,0)}; strategies Identity, Adjacent, Squash, Compressor(n) for n in {0,1,2,65536,2^47,2^62+5}. Oracle on the grid of elementary intervals between consecutive offsets: output sorted by Begin; every covered input interval covered by the output; Adjacent: exactly the input's intervals and End_i < Begin_{i+1}; Squash: the single enclosing chunk; Compressor(n): no neighbours with End.File+n >= Begin.File; idempotence. Non-trivial: lists with >= 2 chunks."
 	grid6 := []bgzf.Offset{{0, 0}, {0, 1}, {1, 0}, {1, 1}, {2, 0}, {3, 0}}
 	grid4 := []bgzf.Offset{{0, 0}, {0, 1}, {1, 0}, {2, 0}}
-	strategies := []c17case{{Strategy: "Identity"}, {Strategy: "Adjacent"}, {Strategy: "Squash"}, {Strategy: "Compressor", Near: 0}, {Strategy: "Compressor", Near: 1}, {Strategy: "Compressor", Near: 2}, {Strategy: "Compressor", Near: 1 << 16}}
+	strategies := []c17case{{Strategy: "Identity"}, {Strategy: "Adjacent"}, {Strategy: "Squash"}, {Strategy: "Compressor", Near: 0}, {Strategy: "Compressor", Near: 1}, {Strategy: "Compressor", Near: 2}, {Strategy: "Compressor", Near: 1 << 16}, {Strategy: "Compressor", Near: 1 << 47}, {Strategy: "Compressor", Near: 1<<62 + 5}}
 	if c.Replay != nil {
 		var cas c17case
 		if err := json.Unmarshal(c.Replay, &cas); err != nil {
